@@ -59,8 +59,19 @@ func famCycle(args []string, out *bufio.Writer) error {
 	n := fs.Int("n", 300, "random scenarios")
 	exh := fs.Int("exhaustive", 3, "exhaustive up to this many ops (0 = off)")
 	maxOps := fs.Int("maxops", 40, "max ops in random scenarios")
+	scnFile := fs.String("scnfile", "", "run exactly the cycle scenarios of this file")
 	fs.Parse(args)
 	var scns []cycScn
+	if *scnFile != "" {
+		kvs, err := readScnFile(*scnFile, "cycle")
+		if err != nil {
+			return err
+		}
+		for _, kv := range kvs {
+			scns = append(scns, cycFromKV(kv))
+		}
+		*exh, *n = 0, 0
+	}
 	if *exh > 0 {
 		scns = append(scns, cycExhaustive(*exh)...)
 	}
@@ -86,6 +97,20 @@ func famCycle(args []string, out *bufio.Writer) error {
 		fmt.Fprintln(out, l)
 	}
 	return nil
+}
+
+func cycFromKV(kv map[string]string) cycScn {
+	s := cycScn{gen: atoi(kv["gen"]), lim: kv["lim"] == "1", cap: atou(kv["cap"]), ms: atoi(kv["ms"]), slots: atoi(kv["slots"])}
+	for _, m := range splitList(kv["mb"]) {
+		s.mb = append(s.mb, atou(m))
+	}
+	for _, o := range splitList(kv["ops"]) {
+		p := strings.Split(o, ":")
+		if len(p) == 3 {
+			s.ops = append(s.ops, cycOp{w: atoi(p[0]), cost: atou(p[1]), batchable: p[2] == "1"})
+		}
+	}
+	return s
 }
 
 func cycExhaustive(maxLen int) []cycScn {
